@@ -817,6 +817,7 @@ func (fr *Frame) builtin(b *ssa.Builtin, c *ssa.CallCommon, instr *ssa.Call, st 
 		fr.recovered = true
 		r := fx.ctx.Fresh("recovered", SIface)
 		fx.wellFormed(st, r, types.NewInterfaceType(nil, nil))
+		st.ghost["recovered"] = fx.ctx.Define("g.recovered", Not(Eq(IfTag(r), Int(0))))
 		return tv(r)
 	case "min", "max":
 		a := fx.materialize(args[0], nil)
